@@ -1,4 +1,6 @@
 """C04 flag expansions: "each incremental insertion reports exactly the simplices it created" (DESIGN 4/C04)."""
+import re
+
 from gsa import facts, ir, paths, summary
 from gsa.facts import Unit, rel, AnalysisBroken
 from gsa.report import Check
@@ -105,6 +107,180 @@ def run_graph_values(chk, F):
             'are ignored' % tag, key='E10|insert_graph|%s' % tag)
 
 
+def run_descent_entries(chk, fns):
+    """E3-descent-entry: the expansion recursions count a depth budget k down by one per level and stop on the test
+    `k == 0` - a budget that starts below 0 never meets it and the expansion is unbounded. Every call from outside
+    the recursion hands a budget that the guards in force at the call site prove >= 0 (Fourier-Motzkin on the early
+    returns of the caller), unless the entry point documents a negative maximal dimension as "no bound" (table)."""
+    from gsa.absint import Lin, fm_infeasible
+    unbounded_ok = {'insert_edge_as_flag': 'documented: dim_max == -1 means the expansion goes as far as possible'}
+    by_name = {}
+    for f in fns:
+        by_name.setdefault(f['name'], []).append(f)
+    # recursions with an equality stop on an int parameter
+    stops = {}
+    for f in fns:
+        if f.get('body') is None:
+            continue
+        for x in ir.walk(f['body']):
+            if x.get('k') == 'IfStmt' and x.get('else') is None and ir.contains(
+                    x.get('then'), lambda y: y.get('k') == 'ReturnStmt'):
+                m = re.fullmatch(r'\(?(\w+) (==|<=) 0\)?', ir.show(x.get('cond')))
+                if m and any(p['n'] == m.group(1) and p.get('t') == 'int' for p in f.get('params', [])):
+                    stops[(f['name'], len(f['params']))] = (f, m.group(1), m.group(2))
+    if len(stops) < 3:
+        raise AnalysisBroken('C04: the depth-budget recursions of the expansion were not found (%d)' % len(stops))
+    # functions of the recursion: those from which a stop function is reachable and that forward a budget `k - 1`/`k`
+    inner = set(n for n, _ in stops)
+    inner.add('create_expansion')
+    n = 0
+    for f in fns:
+        if f.get('body') is None or f['name'] in inner:
+            continue
+        for call in ir.walk(f['body']):
+            if not ir.is_call(call):
+                continue
+            key = (ir.call_name(call), len(ir.call_args(call)))
+            if key not in stops:
+                continue
+            g, kname, stop_op = stops[key]
+            pos = [p['n'] for p in g['params']].index(kname)
+            arg = ir.call_args(call)[pos]
+            n += 1
+            where = '%s:%s' % (rel(f['file']), call.get('l'))
+            if stop_op == '<=':
+                chk.ob('E3-descent-entry', '%s hands the budget `%s` to %s, which stops on `%s <= 0`' % (
+                    f['name'], ir.show(arg), g['name'], kname), where, True, '',
+                    key='E3|%s|descent-entry' % f['name'], nontrivial=False)
+                continue
+            if f['name'] in unbounded_ok:
+                chk.ob('E3-descent-entry', '%s hands the budget `%s` to %s (%s)' % (
+                    f['name'], ir.show(arg), g['name'], unbounded_ok[f['name']]), where, True, '',
+                    key='E3|%s|descent-entry' % f['name'], nontrivial=False)
+                continue
+            syms = {p['n']: p['n'] for p in f.get('params', []) if p.get('t') == 'int'}
+            la = c01._lin_of(arg, syms)
+            # facts: negations of the early-return guards that precede the call at the top level of the body
+            facts_ = []
+            broken = None
+            for st in (f['body'].get('c') or []):
+                if ir.contains(st, lambda y: y is call):
+                    break
+                if st.get('k') == 'IfStmt' and st.get('else') is None and ir.contains(
+                        st.get('then'), lambda y: y.get('k') == 'ReturnStmt'):
+                    d = c01._dnf(st.get('cond'), syms)
+                    if d is not None and len(d) == 1 and len(d[0]) == 1:
+                        facts_.append(Lin(-1) - d[0][0])
+                    elif d is not None:
+                        broken = ir.show(st.get('cond'))
+            ok = False
+            if la is not None and None not in facts_ and broken is None:
+                # infeasible(facts and arg <= -1)  <=>  facts imply arg >= 0
+                ok = fm_infeasible(list(facts_) + [Lin(-1) - la])
+            chk.ob('E3-descent-entry', '%s hands %s a depth budget `%s` that is >= 0' % (f['name'], g['name'],
+                   ir.show(arg)), where, ok, '' if ok else 'no guard before the call excludes `%s` < 0: the recursion '
+                   'stops on `%s == 0` only, a negative budget never meets it and simplices of every dimension are '
+                   'added (maximal dimension 0 expands a 4-clique to dimension 3)' % (ir.show(arg), kname),
+                   key='E3|%s|descent-entry' % f['name'])
+    chk.expect_count('E3-descent-entry', 'entries into the expansion recursions', n, 3)
+
+
+def run_forall_flags(chk, fns):
+    """E8-forall-flag: "a candidate is inserted when all its facets are present": in siblings_expansion_with_blockers
+    the flag that guards the insertion is initialised true and the loop over the facets may only lower it. The loop
+    body is run as a transformer of the flag on every sequence of up to three facets present / absent (a small
+    interpreter: if, assignment, break): the flag after the loop must be the conjunction of the tests."""
+    fs = [f for f in fns if f['name'] == 'siblings_expansion_with_blockers' and f.get('body') is not None]
+    if len(fs) != 1:
+        raise AnalysisBroken('C04: siblings_expansion_with_blockers not found')
+    f = fs[0]
+    found = 0
+    for loop in ir.walk(f['body']):
+        if loop.get('k') != 'CXXForRangeStmt' or 'boundary_simplex_range' not in ir.show(loop.get('range')):
+            continue
+        # the flag: a local bool assigned in the loop body
+        flags = set()
+        for x in ir.walk(loop.get('body')):
+            if x.get('k') == 'BinaryOperator' and x.get('op') in ('=', '&=', '|=') and \
+                    (ir.skipcasts(x['c'][0]) or {}).get('t', '') == 'bool':
+                flags.add(ir.show(x['c'][0]))
+        if len(flags) != 1:
+            raise AnalysisBroken('C04: the facet loop of siblings_expansion_with_blockers assigns %d flags' % len(flags))
+        flag = flags.pop()
+        init = [x for x in ir.walk(f['body']) if x.get('k') == 'VarDecl' and x.get('n') == flag]
+        if len(init) != 1 or init[0].get('init') is None:
+            raise AnalysisBroken('C04: declaration of the flag %s not found' % flag)
+        found += 1
+        # locals of the body that hold the looked-up facet
+        looked = {x['n'] for x in ir.walk(loop.get('body')) if x.get('k') == 'VarDecl' and x.get('init') is not None
+                  and 'find_child' in ir.show(x['init'])}
+
+        class Brk(Exception):
+            pass
+
+        def ev(e, st):
+            e = ir.skipcasts(e)
+            k = e.get('k')
+            if k == 'ParenExpr':
+                return ev(e['c'][0], st)
+            if k == 'CXXBoolLiteralExpr':
+                return e.get('v') == 'true'
+            if k == 'DeclRefExpr' and e.get('n') == flag:
+                return st['flag']
+            if k == 'UnaryOperator' and e.get('op') == '!':
+                return not ev(e['c'][0], st)
+            if k == 'BinaryOperator' and e.get('op') == '&&':
+                return ev(e['c'][0], st) and ev(e['c'][1], st)
+            if k == 'BinaryOperator' and e.get('op') == '||':
+                return ev(e['c'][0], st) or ev(e['c'][1], st)
+            if k in ('BinaryOperator', 'CXXOperatorCallExpr') and e.get('op') in ('==', '!='):
+                ab = e['c'] if k == 'BinaryOperator' else ir.call_args(e)
+                ta, tb = ir.show(ab[0]).replace(' ', ''), ir.show(ab[1]).replace(' ', '')
+                for x_, y_ in ((ta, tb), (tb, ta)):
+                    if x_ in looked and y_.endswith('null_simplex()'):
+                        return (not st['present']) if e['op'] == '==' else st['present']
+            raise AnalysisBroken('C04: the facet loop tests something the rule cannot interpret: %s' % ir.show(e)[:80])
+
+        def run_st(s_, st):
+            if s_ is None:
+                return
+            k = s_.get('k')
+            if k == 'CompoundStmt':
+                for c in s_.get('c') or []:
+                    run_st(c, st)
+            elif k == 'IfStmt':
+                run_st(s_.get('then') if ev(s_.get('cond'), st) else s_.get('else'), st)
+            elif k == 'BreakStmt':
+                raise Brk()
+            elif k == 'BinaryOperator' and s_.get('op') in ('=', '&=', '|=') and ir.show(s_['c'][0]) == flag:
+                v = ev(s_['c'][1], st)
+                st['flag'] = v if s_['op'] == '=' else (st['flag'] and v) if s_['op'] == '&=' else (st['flag'] or v)
+            elif k in ('ContinueStmt',):
+                raise AnalysisBroken('C04: continue in the facet loop')
+            # declarations and calls do not touch the flag
+        bad = None
+        import itertools
+        for nfac in (1, 2, 3):
+            for seq in itertools.product((True, False), repeat=nfac):
+                st = {'flag': ev(init[0]['init'], {'flag': None, 'present': None})}
+                try:
+                    for pres in seq:
+                        st['present'] = pres
+                        run_st(loop.get('body'), st)
+                except Brk:
+                    pass
+                if st['flag'] != all(seq) and bad is None:
+                    bad = (seq, st['flag'])
+        chk.ob('E8-forall-flag', 'siblings_expansion_with_blockers: `%s` after the loop over the facets says that every '
+               'facet is present (14 sequences of present / absent facets)' % flag, '%s:%s' % (rel(f['file']),
+               loop.get('l')), bad is None, '' if bad is None else 'for facets %s (present = True) the flag ends %s: a '
+               'candidate with a missing facet is inserted - the result is not a simplicial complex, and with a '
+               'blocker not the largest subcomplex avoiding the blocked simplices' % (list(bad[0]), bad[1]),
+               key='E8|siblings_expansion_with_blockers|forall-flag')
+    if found != 1:
+        raise AnalysisBroken('C04: %d facet loops found in siblings_expansion_with_blockers' % found)
+
+
 def run(tier, replay=None):
     chk = Check('C04', tier,
                 'Static decision of the reporting clause of incremental flag insertion: in insert_edge_as_flag and '
@@ -115,6 +291,8 @@ def run(tier, replay=None):
                 'structured path rule with pairing/counting (E2n) over the clang AST')
     F = facts.extract(UNITS)
     cls, fns = c01.simplex_tree_functions(c03_only(F, 'st_pat'))
+    run_descent_entries(chk, fns)
+    run_forall_flags(chk, fns)
     G = summary.ClassGraph(fns)
     reporters = [f for f in fns if any(p.get('n') == OUT for p in f.get('params', []))]
     chk.expect_count('E2n-report', 'functions taking added_simplices', len(reporters), 5)
